@@ -1,7 +1,7 @@
-// S-harness for cocls::queue<int>, cocls::queue<void> and cocls::limited_queue<int> (C09, C10).
+// S-harness for cocls::queue<item_t>, cocls::queue<void> and cocls::limited_queue<item_t> (C09, C10).
 // Reads cases from stdin, prints one canonical line per operation (see lean/Drivers/C09.lean, C10.lean).
-// Kinds: `lq <limit>` (C10, run_case), `slq <limit>` (C10 scheduled interleavings, run_slqcase), `q` / `vq` (C09 sequential, run_qcase),
-// `sq` / `svq` (C09 scheduled interleavings, run_sqcase), `mtq` / `mtv` (C09 threads, run_mtcase).
+// Kinds: `lq <limit>` (C10 sequential, run_case), `q` / `vq` (C09 sequential, run_qcase),
+// `sq` / `svq` / `slq <limit>` (C09 / C10 scheduled interleavings, run_sched), `mtq` / `mtv` (C09 threads, run_mtcase).
 #include "common.h"
 #include <cocls/queue.h>
 #include <cocls/async.h>
@@ -15,10 +15,41 @@
 using namespace cocls;
 using vh::test_exc;
 
+// The item type of every non-void queue in this harness: owns a heap resource (ASan sees a use after free, a double
+// free or a leak of an item), can refuse to be constructed (negative value: `pushthrow`), and tracks its own
+// lifetime - a destroyed or moved-from item that is delivered prints as v:-666.
+struct item_error : std::exception {
+    const char *what() const noexcept override { return "item_error"; }
+};
+struct item_t {
+    static constexpr int GOOD = 0x600D, DEAD = 0xDEAD;
+    std::unique_ptr<int> res;
+    int val;
+    int magic;
+    item_t(int v) : res(v < 0 ? throw item_error() : new int(v)), val(v), magic(GOOD) {}
+    item_t(item_t &&o) noexcept : res(std::move(o.res)), val(o.val), magic(o.magic) {}
+    item_t &operator=(item_t &&o) noexcept { res = std::move(o.res); val = o.val; magic = o.magic; return *this; }
+    item_t(const item_t &) = delete;
+    item_t &operator=(const item_t &) = delete;
+    ~item_t() {
+        // volatile: the stores into the dying object must not be optimised away
+        *(volatile int *)&magic = DEAD;
+        *(volatile int *)&val = -666;
+    }
+    int get() const { return (magic == GOOD && res && *res == val) ? val : -666; }
+};
+inline std::ostream &operator<<(std::ostream &os, const item_t &it) { return os << it.get(); }
+
 // unblock_pop is protected in limited_queue (protected base); reach it through a derived class
-struct lq_t : limited_queue<int> {
-    using limited_queue<int>::limited_queue;
+struct lq_t : limited_queue<item_t> {
+    using limited_queue<item_t>::limited_queue;
     suspend_point<bool> upop(std::exception_ptr e) { return this->unblock_pop(e); }
+};
+
+// queue<T> with a view of the number of parked promises (precondition of `pushthrow`)
+template <typename T>
+struct q_t : queue<T> {
+    std::size_t nawait() { std::lock_guard _(this->_mx); return this->_awaiters.size(); }
 };
 
 template <typename Q, typename T, bool limited>
@@ -143,8 +174,8 @@ async<void> consumer(qcase<Q, T> &c, int n) {
                 co_await c.q->pop();
                 out = "ok";
             } else {
-                int v = co_await c.q->pop();
-                out = "v:" + std::to_string(v);
+                auto &v = co_await c.q->pop();
+                out = "v:" + std::to_string(v.get());
             }
         } catch (const await_canceled_exception &) {
             out = "canceled"; stop = true;
@@ -231,6 +262,21 @@ void run_qcase(std::istream &in) {
                 r = c.q->push(v);
             }
             head << "push woke=" << r;
+        } else if (w[0] == "pushthrow") {
+            // an item whose constructor throws.  Precondition (made explicit, also in the model): no pop is waiting -
+            // otherwise the promise layer has already consumed the waiting promise when the constructor throws.
+            if constexpr (std::is_void_v<T>) {
+                head << "pushthrow n/a";
+            } else if (c.q->nawait() != 0) {
+                head << "pushthrow n/a";
+            } else {
+                try {
+                    bool r = c.q->push(-1);
+                    head << "pushthrow nothrow woke=" << r;
+                } catch (const item_error &) {
+                    head << "pushthrow threw";
+                }
+            }
         } else if (w[0] == "pop") {
             std::size_t id = c.pops.size();
             c.pops.emplace_back();
@@ -418,32 +464,41 @@ void run_mtcase(std::istream &in, bool is_void, const std::vector<std::string> &
 }
 
 // ---------------------------------------------------------------------------------------------
-// C09 scheduled suite (`sq` / `svq`): every operation runs on its own thread; the queue is
-// instantiated with a Lock (template parameter of cocls::queue) whose unlock() parks the calling
-// operation when its lock region moved a promise out of `_awaiters` (push handing over, unblock_pop).
-// The out-of-lock resolution then happens when the input says `deliver k` - exactly the `deliver`
-// step of the Lean model - so lock regions of other operations can be interleaved in between.
-// Only one thread runs at any time (baton), so every run is deterministic.
+// Scheduled suites (C09: `sq` / `svq`, C10: `slq <limit>`): deterministic interleavings on the real
+// headers without any source hook.  The queue is instantiated with a Lock (template parameter of
+// cocls::queue / limited_queue) that is a scheduling point; every operation of the input runs on its
+// own thread and exactly one thread runs at any time (baton), so every run is deterministic.
+//
+// An operation leaves the baton to the reader of the input ("parks") at these points:
+//  paused   after a lock region that moved a promise out of `_awaiters` / `_blocked` (push handing over,
+//           unblock_pop, limited pop admitting a blocked push, unblock_push): the out-of-lock resolution is
+//           performed when the input says `deliver k` - the `Op.deliver k` step of the Lean models;
+//  holding  `hold <op>`: right after its first lock() succeeded, i.e. *inside* its lock region, owning the lock;
+//  blocked  in front of a lock() while another operation is holding the lock (a try_lock() fails instead);
+//  midcall  in front of any second lock() of the same operation: the correct code never locks twice, an
+//           implementation that splits a lock region does, and the following input lines run in that window.
+// `deliver k` resumes the k-th parked operation (in the order in which they parked); a blocked operation
+// cannot be resumed while the lock is held (`deliver held`).  A lock() that finds the lock owned although no
+// operation is holding it (an earlier operation left without unlocking) can never return: the harness
+// says so on stderr and exits with status 42.
+// Every line shows the number of lock regions the operation entered since its previous line (`r=`).
 // ---------------------------------------------------------------------------------------------
 struct sched {
     struct opt {
         std::thread th;
-        int state = 0;          // 0 running, 1 parked after a lock region that left work to do outside the lock,
-                                // 2 finished, 3 parked in front of a second lock() of the same operation (slq only)
+        int state = 0;          // 0 running, 1 paused, 2 finished, 3 midcall, 4 holding, 5 blocked
         bool go = false;
-        bool result = false;
-        bool is_push = false;
-        // slq bookkeeping
+        bool hold = false;      // park inside the first lock region
         int regions = 0;        // lock regions entered so far
         int shown = 0;          // ... of which already printed
-        int kind = 0;           // 0 push, 1 pop, 2 upush, 3 upop, 4 size, 5 empty
-        std::size_t id = 0;     // future id (push / pop)
-        std::size_t num = 0;    // result of size()
+        std::string label;      // `push#3` | `pop#1` | `upop` | `size` ...
+        std::function<std::string()> status;    // what the finished call returned
     };
     std::mutex m;
     std::condition_variable cv;
-    std::deque<std::unique_ptr<opt>> paused;    // in the order in which they parked
-    bool park_relock = false;   // slq: an operation that locks a second time parks in front of that lock()
+    std::deque<std::unique_ptr<opt>> parked;    // in the order in which they parked
+    opt *holder = nullptr;      // the operation that is parked while owning the queue's lock
+    bool owned = false;         // the queue's lock is owned by somebody
 };
 static sched *g_sched = nullptr;
 static thread_local sched::opt *tl_op = nullptr;
@@ -463,188 +518,88 @@ struct sched_lock {
         tl_op->state = 0;
     }
     void enter() {
+        if (g_sched) g_sched->owned = true;
         if (tl_op) ++tl_op->regions;
         before = g_counts ? g_counts() : std::pair<std::size_t, std::size_t>{0, 0};
     }
     void lock() {
-        // an operation that comes back for a second lock region: anything may happen in between
-        if (tl_op && g_sched && g_sched->park_relock && tl_op->regions > 0) park(3);
+        if (tl_op && g_sched) {
+            // an operation that comes back for a second lock region: anything may happen in between
+            if (tl_op->regions > 0) park(3);
+            while (g_sched->holder) { tl_op->hold = false; park(5); }
+            if (g_sched->owned) {
+                fprintf(stderr, "DEADLOCK: `%s` waits for the queue's lock, which an earlier operation left locked "
+                                "(no running operation owns it)\n", tl_op->label.c_str());
+                fflush(stdout);
+                _exit(42);
+            }
+        }
         mx.lock();
         enter();
+        if (tl_op && g_sched && tl_op->hold) {
+            tl_op->hold = false;
+            g_sched->holder = tl_op;
+            park(4);
+        }
     }
-    bool try_lock() { if (!mx.try_lock()) return false; enter(); return true; }
+    bool try_lock() {
+        if (g_sched && (g_sched->holder || g_sched->owned)) return false;
+        if (!mx.try_lock()) return false;
+        enter();
+        return true;
+    }
     void unlock() {
         bool taken = false;
         if (g_counts) { auto now = g_counts(); taken = now.first < before.first || now.second < before.second; }
+        if (g_sched) {
+            g_sched->owned = false;
+            if (g_sched->holder == tl_op) g_sched->holder = nullptr;
+        }
         mx.unlock();
         if (taken && tl_op && g_sched) park(1);
     }
 };
 
+// --- the three queues behind one interface -------------------------------------------------------
 template <typename T>
-struct sq_t : queue<T, primitives::std_queue, primitives::std_queue, sched_lock> {
-    std::size_t nawait() const { return this->_awaiters.size(); }
+struct sq_adapter {
+    using item = T;
+    static constexpr bool limited = false;
+    struct Q : queue<T, primitives::std_queue, primitives::std_queue, sched_lock> {
+        std::size_t nawait() const { return this->_awaiters.size(); }
+        std::size_t nblocked() const { return 0; }
+        suspend_point<bool> upop(std::exception_ptr e) { return this->unblock_pop(e); }
+    };
+    static Q *make(std::size_t) { return new Q(); }
+};
+struct slq_adapter {
+    using item = item_t;
+    static constexpr bool limited = true;
+    using base = limited_queue<item_t, primitives::std_queue, primitives::std_queue, primitives::std_queue, sched_lock>;
+    struct Q : base {
+        using base::base;
+        std::size_t nawait() const { return this->_awaiters.size(); }
+        std::size_t nblocked() const { return this->_blocked.size(); }
+        suspend_point<bool> upop(std::exception_ptr e) { return this->unblock_pop(e); }
+    };
+    static Q *make(std::size_t limit) { return new Q(limit); }
 };
 
-template <typename T>
-void run_sqcase(std::istream &in) {
-    using Q = sq_t<T>;
+template <typename A>
+void run_sched(std::istream &in, std::size_t limit) {
+    using T = typename A::item;
+    using Q = typename A::Q;
     sched sc;
     g_sched = &sc;
-    alarm(15);      // never expected to fire; a hang must not stall the whole check
-    std::unique_ptr<Q> q(new Q());
-    g_counts = [&] { return std::pair<std::size_t, std::size_t>{q->nawait(), 0}; };
-    struct rec { std::unique_ptr<future<T>> f; bool reported = false; };
-    std::deque<rec> pops;
-    std::vector<std::string> evs;
-    std::string line;
-    auto poll = [&] {
-        for (std::size_t i = 0; i < pops.size(); ++i)
-            if (!pops[i].reported && pops[i].f && pops[i].f->ready()) {
-                pops[i].reported = true;
-                evs.push_back("pop#" + std::to_string(i) + "=" + vh::outcome(*pops[i].f));
-            }
-    };
-    // run fn on a fresh thread until it finishes or parks; returns the op (parked ops are kept in sc.paused)
-    struct opres { int state; bool result; };
-    auto run_op = [&](bool is_push, std::function<bool()> fn) -> opres {
-        auto o = std::make_unique<sched::opt>();
-        sched::opt *op = o.get();
-        op->is_push = is_push;
-        op->th = std::thread([&sc, op, fn] {
-            tl_op = op;
-            bool r = fn();
-            std::unique_lock lk(sc.m);
-            op->result = r;
-            op->state = 2;
-            sc.cv.notify_all();
-        });
-        std::unique_lock lk(sc.m);
-        sc.cv.wait(lk, [&] { return op->state != 0; });
-        if (op->state == 2) {
-            lk.unlock();
-            op->th.join();
-            return opres{2, op->result};
-        }
-        sc.paused.push_back(std::move(o));
-        return opres{1, false};
-    };
-    auto resume_op = [&](std::size_t k, std::ostringstream &head) {
-        std::unique_ptr<sched::opt> o = std::move(sc.paused[k]);
-        sc.paused.erase(sc.paused.begin() + (std::ptrdiff_t)k);
-        {
-            std::unique_lock lk(sc.m);
-            o->go = true;
-            sc.cv.notify_all();
-            sc.cv.wait(lk, [&] { return o->state == 2; });
-        }
-        o->th.join();
-        if (o->is_push) head << "deliver push woke=" << o->result;
-        else head << "deliver upop " << o->result;
-    };
-    auto shutdown = [&](const char *what) {
-        std::ostringstream dummy;
-        while (!sc.paused.empty()) resume_op(0, dummy);
-        g_counts = nullptr;
-        q.reset();
-        poll();
-        vh::emit(what, evs);
-    };
-    while (std::getline(in, line)) {
-        auto w = vh::split(line);
-        if (w.empty()) continue;
-        std::ostringstream head;
-        if (w[0] == "end") {
-            shutdown("end");
-            g_sched = nullptr;
-            alarm(0);
-            return;
-        } else if (w[0] == "destroy") {
-            shutdown("destroy");
-            while (std::getline(in, line)) {
-                auto w2 = vh::split(line);
-                if (!w2.empty() && w2[0] == "end") break;
-            }
-            vh::emit("end", evs);
-            g_sched = nullptr;
-            alarm(0);
-            return;
-        } else if (w[0] == "push") {
-            int v = w.size() > 1 ? atoi(w[1].c_str()) : 0;
-            opres o = run_op(true, [&q, v]() -> bool {
-                (void)v;
-                if constexpr (std::is_void_v<T>) return q->push(); else return q->push(v);
-            });
-            if (o.state == 2) head << "push woke=" << o.result; else head << "push paused";
-        } else if (w[0] == "upop" && w.size() > 1) {
-            int code = atoi(w[1].c_str());
-            opres o = run_op(false, [&q, code]() -> bool {
-                return q->unblock_pop(std::make_exception_ptr(test_exc(code)));
-            });
-            if (o.state == 2) head << "upop " << o.result; else head << "upop paused";
-        } else if (w[0] == "pop") {
-            std::size_t id = pops.size();
-            pops.emplace_back();
-            rec *r = &pops[id];
-            run_op(false, [&q, r]() -> bool {
-                r->f.reset(new future<T>([&] { return q->pop(); }));
-                return true;
-            });
-            std::string st = vh::outcome(*pops[id].f);
-            if (st != "pending") pops[id].reported = true;
-            head << "pop#" << id << " " << st;
-        } else if (w[0] == "deliver" && w.size() > 1) {
-            std::size_t k = (std::size_t)atoi(w[1].c_str());
-            if (k < sc.paused.size()) resume_op(k, head); else head << "deliver none";
-        } else if (w[0] == "size") {
-            std::size_t n = 0;
-            run_op(false, [&q, &n]() -> bool { n = q->size(); return true; });
-            head << "size " << n;
-        } else if (w[0] == "empty") {
-            bool e = false;
-            run_op(false, [&q, &e]() -> bool { e = q->empty(); return true; });
-            head << "empty " << e;
-        } else {
-            head << "bad-op";
-        }
-        poll();
-        vh::emit(head.str(), evs);
-    }
-    g_sched = nullptr;
-    alarm(0);
-}
-
-// ---------------------------------------------------------------------------------------------
-// C10 scheduled suite (`slq <limit>`): limited_queue<int> with the parking Lock.  Every operation
-// runs on its own thread.  It parks (a) after a lock region that moved a promise out of `_awaiters`
-// or `_blocked` (push handing over, pop admitting a blocked push, unblock_push, unblock_pop) - the
-// out-of-lock resolution is then performed by `deliver k` - and (b) in front of any second lock()
-// of the same operation (`midcall`): the correct code never does that, an implementation that
-// splits a lock region does, and the following input lines then run inside that window.
-// Every line shows the number of lock regions the operation entered (`r=`).
-// ---------------------------------------------------------------------------------------------
-struct slq_t : limited_queue<int, primitives::std_queue, primitives::std_queue, primitives::std_queue, sched_lock> {
-    using base = limited_queue<int, primitives::std_queue, primitives::std_queue, primitives::std_queue, sched_lock>;
-    using base::base;
-    suspend_point<bool> upop(std::exception_ptr e) { return this->unblock_pop(e); }
-    std::size_t nawait() const { return this->_awaiters.size(); }
-    std::size_t nblocked() const { return this->_blocked.size(); }
-};
-
-void run_slqcase(std::istream &in, std::size_t limit) {
-    sched sc;
-    sc.park_relock = true;
-    g_sched = &sc;
-    alarm(15);      // never expected to fire; a hang must not stall the whole check
-    std::unique_ptr<slq_t> q(new slq_t(limit));
+    alarm(10);      // never expected to fire; a hang must not stall the whole check
+    std::unique_ptr<Q> q(A::make(limit));
     g_counts = [&] { return std::pair<std::size_t, std::size_t>{q->nawait(), q->nblocked()}; };
-    struct prec { std::unique_ptr<future<int>> f; bool reported = false; };
+    struct prec { std::unique_ptr<future<T>> f; bool reported = false; };
     struct urec { std::unique_ptr<future<void>> f; bool reported = false; };
     std::deque<prec> pops;
-    std::deque<urec> pushes;
+    std::deque<urec> pushes;        // limited queue only: push returns a future
     std::vector<std::string> evs;
     std::string line;
-    static const char *names[] = {"push", "pop", "upush", "upop", "size", "empty"};
     auto poll = [&] {
         for (std::size_t i = 0; i < pops.size(); ++i)
             if (!pops[i].reported && pops[i].f && pops[i].f->ready()) {
@@ -657,24 +612,10 @@ void run_slqcase(std::istream &in, std::size_t limit) {
                 evs.push_back("push#" + std::to_string(i) + "=" + vh::outcome(*pushes[i].f));
             }
     };
-    // `push#3` / `pop#1` / `upush` ...
-    auto label = [&](sched::opt *o) {
-        std::string l = names[o->kind];
-        if (o->kind <= 1) l += "#" + std::to_string(o->id);
-        return l;
-    };
-    // what the finished call returned; marks the own future as reported when it is ready
-    auto status = [&](sched::opt *o) -> std::string {
-        switch (o->kind) {
-            case 0: { auto st = vh::outcome(*pushes[o->id].f); if (st != "pending") pushes[o->id].reported = true; return st; }
-            case 1: { auto st = vh::outcome(*pops[o->id].f); if (st != "pending") pops[o->id].reported = true; return st; }
-            case 4: return std::to_string(o->num);
-            default: return o->result ? "1" : "0";
-        }
-    };
     auto regions = [&](sched::opt *o) { int d = o->regions - o->shown; o->shown = o->regions; return d; };
+    static const char *parked_name[] = {"", "paused", "", "midcall", "holding", "blocked"};
     // wait until the op's thread finished or parked; finished ops are joined, parked ones queued
-    auto settle = [&](std::unique_ptr<sched::opt> o, std::ostringstream &head, bool first, bool quiet = false) {
+    auto settle = [&](std::unique_ptr<sched::opt> o, std::ostringstream &head, bool first, bool quiet) {
         sched::opt *op = o.get();
         {
             std::unique_lock lk(sc.m);
@@ -682,32 +623,34 @@ void run_slqcase(std::istream &in, std::size_t limit) {
         }
         int st = op->state;
         if (st == 2) op->th.join();
-        if (quiet) {
-            // flush before destruction: the results show up as ordinary events
-        } else if (first) {
-            head << label(op) << " " << (st == 2 ? status(op) : st == 1 ? "paused" : "midcall") << " r=" << regions(op);
-        } else {
-            head << "deliver r=" << regions(op) << " ret=" << (st == 2 ? label(op) + ":" + status(op) : st == 1 ? "again" : "midcall");
+        if (!quiet) {
+            std::string what = st == 2 ? op->status() : parked_name[st];
+            int r = regions(op);
+            if (first) head << op->label << " " << what << " r=" << r;
+            else head << "deliver r=" << r << " ret=" << op->label << ":" << what;
         }
-        if (st != 2) sc.paused.push_back(std::move(o));
+        if (st != 2) sc.parked.push_back(std::move(o));
     };
-    auto run_op = [&](int kind, std::size_t id, std::function<void(sched::opt *)> fn, std::ostringstream &head) {
+    auto run_op = [&](bool hold, std::string label, std::function<void()> fn, std::function<std::string()> status,
+                      std::ostringstream &head) {
         auto o = std::make_unique<sched::opt>();
         sched::opt *op = o.get();
-        op->kind = kind;
-        op->id = id;
+        op->hold = hold;
+        op->label = std::move(label);
+        op->status = std::move(status);
         op->th = std::thread([&sc, op, fn] {
             tl_op = op;
-            fn(op);
+            fn();
             std::unique_lock lk(sc.m);
             op->state = 2;
             sc.cv.notify_all();
         });
-        settle(std::move(o), head, true);
+        settle(std::move(o), head, true, false);
     };
-    auto resume_op = [&](std::size_t k, std::ostringstream &head, bool quiet = false) {
-        std::unique_ptr<sched::opt> o = std::move(sc.paused[k]);
-        sc.paused.erase(sc.paused.begin() + (std::ptrdiff_t)k);
+    auto can_resume = [&](std::size_t k) { return !(sc.parked[k]->state == 5 && sc.holder != nullptr); };
+    auto resume_op = [&](std::size_t k, std::ostringstream &head, bool quiet) {
+        std::unique_ptr<sched::opt> o = std::move(sc.parked[k]);
+        sc.parked.erase(sc.parked.begin() + (std::ptrdiff_t)k);
         {
             std::unique_lock lk(sc.m);
             o->state = 0;
@@ -716,17 +659,30 @@ void run_slqcase(std::istream &in, std::size_t limit) {
         }
         settle(std::move(o), head, false, quiet);
     };
+    // destroy / end: every parked call finishes first (always the first one that can proceed), then the queue dies
     auto shutdown = [&](const char *what) {
-        while (!sc.paused.empty()) { std::ostringstream dummy; resume_op(0, dummy, true); }
+        while (!sc.parked.empty()) {
+            std::size_t k = 0;
+            while (k < sc.parked.size() && !can_resume(k)) ++k;
+            if (k == sc.parked.size()) break;       // cannot happen: the holder itself can always proceed
+            std::ostringstream dummy;
+            resume_op(k, dummy, true);
+        }
         g_counts = nullptr;
         q.reset();
         poll();
         vh::emit(what, evs);
     };
+    auto bool_status = [](std::shared_ptr<bool> r) { return [r] { return std::string(*r ? "1" : "0"); }; };
     while (std::getline(in, line)) {
         auto w = vh::split(line);
         if (w.empty()) continue;
         std::ostringstream head;
+        bool hold = false;
+        if (w[0] == "hold" && w.size() > 1) {
+            hold = true;
+            w.erase(w.begin());
+        }
         if (w[0] == "end") {
             shutdown("end");
             break;
@@ -738,30 +694,66 @@ void run_slqcase(std::istream &in, std::size_t limit) {
             }
             vh::emit("end", evs);
             break;
+        } else if (w[0] == "push" && !std::is_void_v<T> && w.size() < 2) {
+            head << "bad-op";
         } else if (w[0] == "push") {
             int v = w.size() > 1 ? atoi(w[1].c_str()) : 0;
-            std::size_t id = pushes.size();
-            pushes.emplace_back();
-            urec *r = &pushes[id];
-            run_op(0, id, [&q, r, v](sched::opt *) { r->f.reset(new future<void>([&] { return q->push(v); })); }, head);
+            (void)v;
+            if constexpr (A::limited) {
+                std::size_t id = pushes.size();
+                pushes.emplace_back();
+                urec *r = &pushes[id];
+                run_op(hold, "push#" + std::to_string(id),
+                       [&q, r, v] { r->f.reset(new future<void>([&] { return q->push(v); })); },
+                       [r] { auto st = vh::outcome(*r->f); if (st != "pending") r->reported = true; return st; }, head);
+            } else {
+                auto res = std::make_shared<bool>(false);
+                run_op(hold, "push", [&q, res, v] {
+                    if constexpr (std::is_void_v<T>) *res = q->push(); else *res = q->push(v);
+                }, bool_status(res), head);
+            }
+        } else if (w[0] == "pushthrow") {
+            // precondition: no pop is waiting (see run_qcase); evaluated when the line is read
+            if constexpr (std::is_void_v<T> || A::limited) {
+                head << "bad-op";
+            } else if (q->nawait() != 0 || sc.holder != nullptr || !sc.parked.empty()) {
+                head << "pushthrow n/a";
+            } else {
+                auto res = std::make_shared<std::string>("nothrow");
+                run_op(false, "pushthrow", [&q, res] {
+                    try { (void)(bool)q->push(-1); } catch (const item_error &) { *res = "threw"; }
+                }, [res] { return *res; }, head);
+            }
         } else if (w[0] == "pop") {
             std::size_t id = pops.size();
             pops.emplace_back();
             prec *r = &pops[id];
-            run_op(1, id, [&q, r](sched::opt *) { r->f.reset(new future<int>([&] { return q->pop(); })); }, head);
-        } else if (w[0] == "upush" && w.size() > 1) {
-            int code = atoi(w[1].c_str());
-            run_op(2, 0, [&q, code](sched::opt *o) { o->result = q->unblock_push(std::make_exception_ptr(test_exc(code))); }, head);
+            run_op(hold, "pop#" + std::to_string(id),
+                   [&q, r] { r->f.reset(new future<T>([&] { return q->pop(); })); },
+                   [r] { auto st = vh::outcome(*r->f); if (st != "pending") r->reported = true; return st; }, head);
+        } else if (w[0] == "upush" && w.size() > 1 && A::limited) {
+            if constexpr (A::limited) {
+                int code = atoi(w[1].c_str());
+                auto res = std::make_shared<bool>(false);
+                run_op(hold, "upush", [&q, res, code] { *res = q->unblock_push(std::make_exception_ptr(test_exc(code))); },
+                       bool_status(res), head);
+            }
         } else if (w[0] == "upop" && w.size() > 1) {
             int code = atoi(w[1].c_str());
-            run_op(3, 0, [&q, code](sched::opt *o) { o->result = q->upop(std::make_exception_ptr(test_exc(code))); }, head);
+            auto res = std::make_shared<bool>(false);
+            run_op(hold, "upop", [&q, res, code] { *res = q->upop(std::make_exception_ptr(test_exc(code))); },
+                   bool_status(res), head);
         } else if (w[0] == "size") {
-            run_op(4, 0, [&q](sched::opt *o) { o->num = q->size(); }, head);
+            auto res = std::make_shared<std::size_t>(0);
+            run_op(hold, "size", [&q, res] { *res = q->size(); }, [res] { return std::to_string(*res); }, head);
         } else if (w[0] == "empty") {
-            run_op(5, 0, [&q](sched::opt *o) { o->result = q->empty(); }, head);
-        } else if (w[0] == "deliver" && w.size() > 1) {
+            auto res = std::make_shared<bool>(false);
+            run_op(hold, "empty", [&q, res] { *res = q->empty(); }, bool_status(res), head);
+        } else if (w[0] == "deliver" && w.size() > 1 && !hold) {
             std::size_t k = (std::size_t)atoi(w[1].c_str());
-            if (k < sc.paused.size()) resume_op(k, head); else head << "deliver none";
+            if (k >= sc.parked.size()) head << "deliver none";
+            else if (!can_resume(k)) head << "deliver held";
+            else resume_op(k, head, false);
         } else {
             head << "bad-op";
         }
@@ -779,14 +771,14 @@ int main() {
         if (w.empty() || w[0] != "case") continue;
         std::cout << "case " << w[1] << "\n";
         const std::string &kind = w[2];
-        if (kind == "q") run_qcase<queue<int>, int>(std::cin);
-        else if (kind == "vq") run_qcase<queue<void>, void>(std::cin);
-        else if (kind == "sq") run_sqcase<int>(std::cin);
-        else if (kind == "svq") run_sqcase<void>(std::cin);
+        if (kind == "q") run_qcase<q_t<item_t>, item_t>(std::cin);
+        else if (kind == "vq") run_qcase<q_t<void>, void>(std::cin);
+        else if (kind == "sq") run_sched<sq_adapter<item_t>>(std::cin, 0);
+        else if (kind == "svq") run_sched<sq_adapter<void>>(std::cin, 0);
         else if (kind == "mtq") run_mtcase(std::cin, false, w);
         else if (kind == "mtv") run_mtcase(std::cin, true, w);
-        else if (kind == "lq") run_case<lq_t, int, true>(std::cin, (std::size_t)atoi(w[3].c_str()));
-        else if (kind == "slq") run_slqcase(std::cin, w.size() > 3 ? (std::size_t)atoi(w[3].c_str()) : 1);
+        else if (kind == "lq") run_case<lq_t, item_t, true>(std::cin, (std::size_t)atoi(w[3].c_str()));
+        else if (kind == "slq") run_sched<slq_adapter>(std::cin, w.size() > 3 ? (std::size_t)atoi(w[3].c_str()) : 1);
         else std::cout << "bad-kind\n";
         std::cout.flush();
     }
